@@ -247,6 +247,9 @@ class Stage:
         self.run, self.tier, self.seed = run, tier, seed
         self.drv = C.driver(timeout=30.0)
         self.mdl = C.pdlv(timeout=120)
+        # the parser model runs the grammar translated from /repo's parser.rs on this run (its agreement with the
+        # transcribed grammar is property C12's business)
+        C.use_translated_grammar(self.mdl, run, report=False)
         self.to_compile = {b: [] for b in BACKENDS}     # (key, text, code)
         self.seen = set()
         self.compile_cap = 150 if tier == "quick" else 600
